@@ -93,3 +93,45 @@ func Harness_C16_tunnel_start_race() {
 	verif_Assert("C16.race.nothing_running", left == 0)
 	verif_Cover("C16.race.done")
 }
+
+// The real tunnel manager with two connected tunnels: the client shuts the manager down while a
+// fatal error notification for one tunnel and the peer's close notification for the other arrive.
+// Every tunnel's close body and callback run exactly once, its connections are closed, the manager
+// ends up empty and closing it (or a tunnel) again is harmless.
+func Harness_C16_real_manager() {
+	verif_ClockSet(int64(1) << 60)
+	ctx, cancel := context.WithCancel(context.Background())
+	defer cancel()
+	mgr := NewTunnelManager(ctx, TunnelRoleTarget)
+	closed := [2]int{}
+	var conns [2][2]*verifConn
+	var ts [2]*Tunnel
+	for i := 0; i < 2; i++ {
+		i := i
+		conns[i][0] = &verifConn{In: &verifReader{}, Out: &verifSink{}}
+		conns[i][1] = &verifConn{In: &verifReader{}, Out: &verifSink{}}
+		ts[i] = NewTunnel(&TunnelConfig{ID: []string{"t1", "t2"}[i], MappingID: "m1", Role: TunnelRoleTarget, Protocol: "tcp", LocalConn: conns[i][0], TunnelRWC: conns[i][1],
+			Manager: mgr, OnClosed: func(r CloseReason, err error) { closed[i]++ }})
+		ts[i].SetCtx(mgr.Ctx(), ts[i].onClose)
+		ts[i].state.Store(int32(TunnelStateConnected))
+		verif_Assert("C16.mgr2.register", mgr.RegisterTunnel(ts[i]) == nil)
+	}
+	verif_Assert("C16.mgr2.duplicate_refused", mgr.RegisterTunnel(ts[0]) != nil && mgr.CountTunnels() == 2)
+	var closeErr error
+	verif_Spawn(func() { closeErr = mgr.Close() })
+	verif_Spawn(func() { mgr.OnTunnelError("t1", "m1", "E", "fatal", false) })
+	if verif_Bool() {
+		verif_Spawn(func() { mgr.OnTunnelClosed("t2", "m1", "peer", 1, 2, 3) })
+		verif_Cover("C16.mgr2.peer_notification")
+	}
+	left := verif_Quiesce()
+	verif_Assert("C16.mgr2.close_ok", closeErr == nil)
+	verif_Assert("C16.mgr2.onclosed_once", closed[0] == 1 && closed[1] == 1)
+	verif_Assert("C16.mgr2.states_closed", ts[0].GetState() == TunnelStateClosed && ts[1].GetState() == TunnelStateClosed)
+	verif_Assert("C16.mgr2.conns_closed", conns[0][0].Closed && conns[0][1].Closed && conns[1][0].Closed && conns[1][1].Closed)
+	verif_Assert("C16.mgr2.manager_empty", mgr.CountTunnels() == 0 && mgr.GetTunnel("t1") == nil)
+	verif_Assert("C16.mgr2.nothing_running", left == 0)
+	verif_Assert("C16.mgr2.close_again_ok", mgr.Close() == nil && ts[0].Close(CloseReasonNormal, nil) == nil && closed[0] == 1)
+	verif_Assert("C16.mgr2.close_unknown_fails_cleanly", mgr.CloseTunnel("t1", CloseReasonNormal) != nil)
+	verif_Cover("C16.mgr2.done")
+}
